@@ -220,8 +220,7 @@ def check_depth():
             for arr, (e, defs) in cur.items(): val[arr] = _real(e, env, defs)
             desc = ', '.join('%s = %s' % (a, astx.term_str(cur[a][0])) for a in sorted(cur))
             ctx.asserts += 1
-            if not all(a in val for a in ('grid_x', 'grid_z', 'grid_depth')):
-                ctx.violations.append(dict(kind='assert', what='every cartesian node gets x, z and depth', detail=desc, inputs=[], native=None)); continue
+            if not all(a in val for a in ('grid_x', 'grid_z', 'grid_depth')): raise astx.AstxError('a cartesian node without recognised x, z and depth assignments: ' + desc)
             asm = asm + SIDE
             ctx.prove(val['grid_depth'] == env['z_max'] - val['grid_z'], asm, "'Depth' is the distance below the top of the grid", desc, names)
             ctx.prove(z3.And(val['grid_z'] >= env['z_min'], val['grid_z'] <= env['z_max'], val['grid_x'] >= env['x_min'], val['grid_x'] <= env['x_max']), asm, 'every node lies inside the requested box', desc, names)
@@ -324,7 +323,7 @@ def check_masks(nmax=4):
                 names = []
                 if name == 'output_filtered':
                     ctx.asserts += 1
-                    if len(run.calls) != 1: ctx.violations.append(dict(kind='assert', what='--filtered filters the mesh once', detail='%d calls of filter_vtu_mesh for %d tags' % (len(run.calls), N), inputs=[], native=None)); continue
+                    if len(run.calls) != 1: raise astx.AstxError('--filtered block: %d calls of filter_vtu_mesh recognised for %d tags (expected one)' % (len(run.calls), N))
                     g, _, mask = run.calls[0]
                     ctx.prove(z3.And(g, *[mask[j] == z3.Not(run.M[j]) for j in range(N)]), [], '--filtered keeps exactly the tags that are not "mantle layer"', '%d tags' % N, names)
                 else:
@@ -332,7 +331,7 @@ def check_masks(nmax=4):
                     for g, i, mask in run.calls: by_idx.setdefault(i, []).append((g, mask))
                     for i in range(N):
                         ctx.asserts += 1
-                        if len(by_idx.get(i, [])) != 1: ctx.violations.append(dict(kind='assert', what='--by-tag filters the mesh once per tag', detail='%d calls for tag %d of %d' % (len(by_idx.get(i, [])), i, N), inputs=[], native=None)); continue
+                        if len(by_idx.get(i, [])) != 1: raise astx.AstxError('--by-tag block: %d calls of filter_vtu_mesh recognised for tag %d of %d (expected one per loop iteration)' % (len(by_idx.get(i, [])), i, N))
                         g, mask = by_idx[i][0]
                         ctx.prove(g == z3.Not(run.M[i]), [], '--by-tag writes a file for every tag that is not "mantle layer" and for no other', 'tag %d of %d' % (i, N), names)
                         ctx.prove(z3.Implies(g, z3.And(*[mask[j] == z3.BoolVal(j == i) for j in range(N)])), [], '--by-tag: the mask of file idx selects exactly tag idx', 'tag %d of %d; which tags are "mantle layer" is arbitrary' % (i, N), names)
